@@ -33,7 +33,7 @@ var (
 			"cookie, a client never receives a backend cookie; non-trivial = at least two goroutines share a session and at least two differ")
 )
 
-func TestMain(m *testing.M) { vh.Main(m, recH, recS, recPK, recF) }
+func TestMain(m *testing.M) { vh.Main(m, recH, recS, recPK, recF, recW) }
 
 const cookieName = "agent-session"
 
@@ -490,6 +490,11 @@ func TestReplay(t *testing.T) {
 		for i := 0; i < 5*vh.ReplayRuns(); i++ {
 			recF.Check(t, &fu, func() vh.Outcome { return runFirstUse(&fu) })
 		}
+		return
+	}
+	var sc ShimCase
+	if ok, _ := vh.ReplayCase("shim-handshakes", &sc); ok {
+		recW.Check(t, &sc, func() vh.Outcome { return runShimCase(&sc) })
 		return
 	}
 	// a crash report saved by the driver has part "crash": run the stress part on its case if it parses
